@@ -107,6 +107,7 @@ class SimRandomState(np.random.RandomState):
                 self._result.fault("subset_" + mode)
         self._log.emit("RNG_DRAW", what="choice", a=int(a) if isinstance(a, (int, np.integer)) else -1,
                        subset=[int(v) for v in np.atleast_1d(out)])
+        self.last_choice = (a, size, np.array(out, copy=True))
         return out
 
     # every other draw is delegated to the wrapped generator (weight initialisation etc.)
